@@ -740,7 +740,7 @@ func init() {
 	Register(Spec[c27GateIn]{
 		ID: "C27", Suite: "gate", CoqImports: []string{"Check.C27"},
 		CoqType: "list Z * list string", CoqRun: "Check.C27.run_gate",
-		Quick: 300, Thorough: 20000, Parallel: 4,
+		Quick: 300, Thorough: 12000, Parallel: 4,
 		Corpus: func() []c27GateIn {
 			return []c27GateIn{
 				// a datagram arrives while NewEndpoint is looking at the queued one
